@@ -1,3 +1,4 @@
 import UmapModel.Scalar
 import UmapModel.Knn
 import UmapModel.Graph
+import UmapModel.Relations
